@@ -305,6 +305,8 @@ def _edits(kind):
             "request.header_in_place": lambda f: f.request.headers.add("x-edited", "1"),
             "request.path": set_attr("request.path", "/edited?x=1"),
             "request.trailers": lambda f: setattr(f.request, "trailers", http.Headers([(b"t", b"1")])),
+            "request.trailers_in_place": lambda f: f.request.trailers.add("x-trailer", str(len(f.request.trailers.fields))),
+            "response.trailers_in_place": lambda f: f.response.trailers.add("x-trailer", str(len(f.response.trailers.fields))),
             "response.replace": lambda f: setattr(f, "response", http.Response.make(418, b"teapot", {"x": "y"})),
         })
         if kind == "http":
@@ -340,8 +342,42 @@ def _apply(menu, name, f):
     """an edit whose target does not exist any more (e.g. response dropped earlier) is a no-op"""
     try:
         menu[name](f)
-    except (AttributeError, IndexError, KeyError):
+    except (AttributeError, IndexError, KeyError, TypeError):
         pass
+
+
+def _preps(kind):
+    """states a flow can be in BEFORE backup()/copy(): optional fields absent, present-but-empty (falsy) or filled"""
+    from mitmproxy import http
+    P = {"as_built": lambda f: None,
+         "falsy_present_common": lambda f: [setattr(f, "is_replay", ""), f.metadata.update({"e": [], "d": {}, "z": 0}), setattr(f.server_conn, "sni", ""),
+                                            setattr(f.client_conn, "alpn", b""), setattr(f.server_conn, "timestamp_end", 0.0)]}
+    if kind in ("http", "http_err", "http_noresp", "ws"):
+        P["request.trailers=empty"] = lambda f: setattr(f.request, "trailers", http.Headers())
+        P["request.trailers=filled"] = lambda f: setattr(f.request, "trailers", http.Headers([(b"t", b"0")]))
+        P["request.headers=empty"] = lambda f: setattr(f.request, "headers", http.Headers())
+        if kind == "http":
+            P["response.trailers=empty"] = lambda f: setattr(f.response, "trailers", http.Headers())
+            P["both.trailers=empty"] = lambda f: [setattr(f.request, "trailers", http.Headers()), setattr(f.response, "trailers", http.Headers())]
+            P["response.headers=empty,content=empty"] = lambda f: [setattr(f.response, "headers", http.Headers()), setattr(f.response.data, "content", b"")]
+    if kind.startswith(("tcp", "udp")):
+        P["messages=[]"] = lambda f: setattr(f, "messages", [])
+    return P
+
+
+PLAIN = (type(None), bool, int, float, str, bytes, tuple, list, dict)
+
+
+def _non_plain(x, path="state"):
+    """paths of live (non plain-data) objects inside a state: a backup / a copy must not hold any"""
+    if isinstance(x, dict):
+        for k, v in x.items():
+            yield from _non_plain(v, f"{path}[{k!r}]")
+    elif isinstance(x, (list, tuple)):
+        for i, v in enumerate(x):
+            yield from _non_plain(v, f"{path}[{i}]")
+    elif type(x) not in PLAIN:
+        yield f"{path}: {type(x).__name__}"
 
 
 def _core(state):
@@ -349,6 +385,11 @@ def _core(state):
     s = dict(state)
     s.pop("backup", None)
     return s
+
+
+def _prepared(f, prep):
+    prep(f)
+    return f
 
 
 def bounded(tier, seed):
@@ -359,7 +400,9 @@ def bounded(tier, seed):
     b = Bounded()
     b.rule = ("real flows of 10 type/shape kinds (http with/without response, http error, websocket, tcp, udp, dns, each also with error) x "
               "edit sequences of length <= 2 exhaustively (3-4 seeded) from a per-type menu of in-place and replacing edits (request, response, messages, "
-              "websocket frames, dns fields, metadata incl. nested mutation, marker, comment, error, replay mark, connection attributes): "
+              "websocket frames, dns fields, metadata incl. nested mutation, marker, comment, error, replay mark, connection attributes, in-place "
+              "trailer edits), started from several pre-states (as built; optional fields present-but-empty such as trailers=Headers(), empty headers, "
+              "empty messages, falsy scalars; trailers filled): "
               "backup -> edits -> modified -> second backup -> revert, and copy -> edits on either side; get_state() snapshots compared. "
               "distinct = (kind, edit sequence, scenario); non-trivial = at least one edit")
     b.bound = "edit sequences <= 4; exhaustive for <= 2 (quick) / <= 3 (thorough)"
@@ -375,15 +418,29 @@ def bounded(tier, seed):
             two = [s for s in seqs if len(s) == 2]
             rnd.shuffle(two)
             seqs = [s for s in seqs if len(s) != 2] + two[:200]
-        for seq in seqs:
-            inp = {"kind": kind, "edits": list(seq)}
+        preps = _preps(kind)
+        pnames = sorted(preps)
+        jobs = [("as_built", seq) for seq in seqs]
+        # every other pre-state x every single edit, plus seeded longer sequences
+        for pn in pnames:
+            if pn == "as_built":
+                continue
+            jobs += [(pn, ())] + [(pn, (n,)) for n in names]
+            for _ in range(30 if tier == "quick" else 600):
+                jobs.append((pn, tuple(rnd.choice(names) for _ in range(rnd.randint(2, 4)))))
+        for pn, seq in jobs:
+            inp = {"kind": kind, "pre_state": pn, "edits": list(seq)}
+            mk = lambda: _prepared(ioflows.mk_flow(kind), preps[pn])
             # ---------------- backup / modified / revert
-            f = ioflows.mk_flow(kind)
-            b.case((kind, seq, "backup-revert"), nontrivial=len(seq) > 0)
+            f = mk()
+            b.case((kind, pn, seq, "backup-revert"), nontrivial=len(seq) > 0)
             s0 = copy.deepcopy(f.get_state())
             if f.modified():
                 b.fail("modified.false_without_backup", inp, "modified() before any backup")
             f.backup()
+            bad = list(_non_plain(f._backup))
+            if bad:
+                b.fail("backup.holds_plain_data_only", inp, "; ".join(bad)[:300])
             if _core(f.get_state()) != _core(s0):
                 b.fail("backup.leaves_state_unchanged", inp, "")
             if f.modified():
@@ -409,12 +466,15 @@ def bounded(tier, seed):
                 b.fail("modified.false_after_revert", inp, "")
             # ---------------- copy
             for with_backup in (False, True):
-                f = ioflows.mk_flow(kind)
+                f = mk()
                 if with_backup:
                     f.backup()
                     if seq:
                         _apply(menu, seq[0], f)
-                b.case((kind, seq, "copy", with_backup), nontrivial=len(seq) > 0)
+                b.case((kind, pn, seq, "copy", with_backup), nontrivial=len(seq) > 0)
+                bad = list(_non_plain(f.get_state()))
+                if bad:
+                    b.fail("copy.state_holds_plain_data_only", dict(inp, with_backup=with_backup), "; ".join(bad)[:300])
                 sf = copy.deepcopy(f.get_state())
                 c = f.copy()
                 sc = copy.deepcopy(c.get_state())
